@@ -156,7 +156,10 @@ def C04(tier):
     models = [
         dict(module="RemoveNan", name="MC_RemoveNan",
              cfg=dict(constants=dict(FIX3, MaxLen=q(tier, 6, 8), MaxStride=3, Offsets="{0, 2}", Kinds='{"float", "option"}', Emit=False),
-                      invariants=["CursorInv", "LoopInv", "FrameInv", "DoneOK", "TwinOK", "IdempotentOK"], properties=["Terminates"])),
+                      invariants=["CursorInv", "LoopInv", "FrameInv", "DoneOK", "TwinOK", "IdempotentOK"], properties=["Terminates", "RefinesProof"])),
+        # every lane length: the invariant of RemoveNanAlg (cursor safety, loop invariant, the returned prefix is exactly the
+        # non-missing part) is proved inductive by TLAPS; MC_RemoveNan checks that RemoveNan refines RemoveNanAlg
+        dict(engine="tlaps", module="RemoveNanProof", name="TLAPS_RemoveNanProof", deps=["RemoveNanAlg"]),
         dict(module="RemoveNan", name="MC_RemoveNan_emit", emit=True,
              cfg=dict(constants=dict(FIX3, MaxLen=q(tier, 5, 7), MaxStride=3, Offsets="{0, 2}", Kinds='{"float"}', Emit=True),
                       invariants=["DoneOK", "EmitInv"])),
